@@ -74,7 +74,9 @@ NAMES = _vocab(_PIECES, repair_name, ["A", "b", "1", ".", "-", "stage1", "x"])
 SEGMENTS = _vocab(_FILE_PIECES, _fix_segment, ["f", ".txt", "0", "-", "d"])
 _SHORT_SEGMENTS = ["f", "f.txt", "out", "d", "e", "d.e", "data", "input", "A", "stage1.x", "0", "x-1"]
 PATHS = sorted(set(SEGMENTS + ["/".join(c) for c in itertools.product(_SHORT_SEGMENTS, repeat=2)] +
-                   ["/".join(c) for c in itertools.product(_SHORT_SEGMENTS[:6], repeat=3)]))
+                   ["/".join(c) for c in itertools.product(_SHORT_SEGMENTS[:6], repeat=3)] +
+                   # a variable (resolved later, e.g. after replication) inside the FILE part of a reference
+                   ["out-%(replica)s.txt", "%(dir)s/a", "d/e-%(v)s", "f.%(ext)s"]))
 
 _VARIANTS = ["same", "same", "same", "lower", "upper", "cap", "digit", "dotted", "dashed", "prefixed", "fresh", "fresh"]
 _SUFFIX = {"digit": ["0", "1", "12"], "dotted": [".x", ".v2", ".1", ".txt"], "dashed": ["-1", "_b", "-x"]}
